@@ -87,7 +87,12 @@ func (f *formatValidator) Validate(val interface{}) *Result {
 		result = new(Result)
 	}
 
-	if err := FormatOf(f.Path, f.In, f.Format, val.(string), f.KnownFormats); err != nil {
+	data, ok := val.(string)
+	if !ok {
+		// not a string although its reflect.Kind is String (e.g. a json.Number): format does not apply
+		return result
+	}
+	if err := FormatOf(f.Path, f.In, f.Format, data, f.KnownFormats); err != nil {
 		result.AddErrors(err)
 	}
 
